@@ -165,3 +165,56 @@ theorem readFile_flat (cfg : FsCfg) (root : Dir) (p : Path) (hflat : Flat root)
     | file c => simp [absOf, hd]
 
 end Pg.C05
+
+namespace Pg.C05
+
+/-! ### Appending to a file that ends in a newline -/
+
+/-- The file is empty or ends in a newline (what every `LineSequence` session leaves behind). -/
+def Terminated (c : List Char) : Prop := c = [] ∨ ∃ c', c = c' ++ ['\n']
+
+theorem readLines_ne_nil (a : List Char) (h : a ≠ []) : readLines a ≠ [] := by
+  cases a with
+  | nil => exact absurd rfl h
+  | cons c cs =>
+    simp only [readLines]
+    split
+    · simp
+    · split <;> simp
+
+theorem readLines_split (a rest : List Char) :
+    readLines (a ++ '\n' :: rest) = readLines (a ++ ['\n']) ++ readLines rest := by
+  induction a with
+  | nil => simp [readLines]
+  | cons x a ih =>
+    by_cases hx : x = '\n'
+    · subst hx
+      simp only [List.cons_append, readLines, if_true, ih, List.cons_append]
+    · simp only [List.cons_append, readLines, if_neg hx, ih]
+      have hne := readLines_ne_nil (a ++ ['\n']) (by simp)
+      cases hr : readLines (a ++ ['\n']) with
+      | nil => exact absurd hr hne
+      | cons l ls => simp
+
+theorem readLines_append_terminated (c rest : List Char) (h : Terminated c) :
+    readLines (c ++ rest) = readLines c ++ readLines rest := by
+  rcases h with rfl | ⟨c', rfl⟩
+  · simp [readLines]
+  · have := readLines_split c' rest
+    simp only [List.append_assoc, List.cons_append, List.nil_append] at this ⊢
+    exact this
+
+theorem linesOf_terminated (rs : List (List Char)) : Terminated (linesOf rs) := by
+  induction rs with
+  | nil => exact .inl rfl
+  | cons r rs ih =>
+    rcases ih with h | ⟨c', h⟩
+    · right; exact ⟨rstripNl r, by simp [linesOf, h]⟩
+    · right; exact ⟨rstripNl r ++ '\n' :: c', by simp [linesOf, h]⟩
+
+theorem terminated_append (a b : List Char) (ha : Terminated a) (hb : Terminated b) : Terminated (a ++ b) := by
+  rcases hb with rfl | ⟨b', rfl⟩
+  · simpa using ha
+  · right; exact ⟨a ++ b', by simp⟩
+
+end Pg.C05
